@@ -499,6 +499,12 @@ Script gen_book_script(uint64_t run_seed, const std::string& tier, Rng& r)
             }
             else ps.push_back(gen_position(r, 30, 0));
         }
+        if (r.chance(0.3))
+        {
+            PosSpec sp;  // the start position itself
+            sp.game = ref::Game(ref::Board());
+            ps.push_back(sp);
+        }
         // records
         std::string spec;
         int nrec = 0;
@@ -570,7 +576,29 @@ Script gen_book_script(uint64_t run_seed, const std::string& tier, Rng& r)
         s.ops.push_back(op(OP_CHECK, std::string("c19policy ") + (best ? "best" : "random")));
         for (auto& p : ps)
         {
-            s.ops.push_back(op(OP_SEND, p.command()));
+            // three ways to make p the current position: one position command; a position command followed by the
+            // engine's `moves` command; ucinewgame (start position) after some other position
+            if (!p.game.moves.empty() && r.chance(0.3))
+            {
+                size_t cut = size_t(r.below(p.game.moves.size()));
+                std::string head = p.start_fen.empty() ? "position startpos" : "position fen " + p.start_fen;
+                if (cut > 0)
+                {
+                    head += " moves";
+                    for (size_t i = 0; i < cut; ++i) head += " " + p.game.moves[i].uci();
+                }
+                std::string tail = "moves";
+                for (size_t i = cut; i < p.game.moves.size(); ++i) tail += " " + p.game.moves[i].uci();
+                s.ops.push_back(op(OP_SEND, head));
+                s.ops.push_back(op(OP_SEND, tail));
+            }
+            else if (p.start_fen.empty() && p.game.moves.empty() && r.chance(0.6))
+            {
+                s.ops.push_back(op(OP_SEND, "position fen r3k2r/8/8/8/8/8/8/R3K2R w KQkq - 0 1"));
+                s.ops.push_back(op(OP_SEND, "ucinewgame"));
+            }
+            else
+                s.ops.push_back(op(OP_SEND, p.command()));
             int gos = int(r.range(1, 3));
             for (int i = 0; i < gos; ++i)
             {
